@@ -133,6 +133,7 @@ def _format_string_rule(fn: ast.FunctionDef):
     iff = body[0]
     tests = iff.test.values if isinstance(iff.test, ast.BoolOp) and isinstance(iff.test.op, ast.Or) else [iff.test]
     starts, ends, contains = [], [], []
+    strip_changes = False
     for t in tests:
         if isinstance(t, ast.Call) and isinstance(t.func, ast.Attribute) and t.func.attr in ("startswith", "endswith") \
                 and isinstance(t.func.value, ast.Name) and t.func.value.id == "value" and len(t.args) == 1:
@@ -143,6 +144,12 @@ def _format_string_rule(fn: ast.FunctionDef):
         elif isinstance(t, ast.Compare) and len(t.ops) == 1 and isinstance(t.ops[0], ast.In) \
                 and isinstance(t.comparators[0], ast.Name) and t.comparators[0].id == "value":
             contains.append(_one_byte(ast.literal_eval(t.left), "_format_string.in"))
+        elif isinstance(t, ast.Compare) and len(t.ops) == 1 and isinstance(t.ops[0], ast.NotEq) \
+                and isinstance(t.left, ast.Name) and t.left.id == "value" \
+                and isinstance(t.comparators[0], ast.Call) and isinstance(t.comparators[0].func, ast.Attribute) \
+                and t.comparators[0].func.attr == "strip" and not t.comparators[0].args \
+                and isinstance(t.comparators[0].func.value, ast.Name) and t.comparators[0].func.value.id == "value":
+            strip_changes = True   # value != value.strip()
         else:
             raise T.TranslateError(f"_format_string: unknown quoting trigger {ast.dump(t)[:120]}")
 
@@ -159,7 +166,7 @@ def _format_string_rule(fn: ast.FunctionDef):
     qo, qc = ast.literal_eval(q.left.left), ast.literal_eval(q.right)
     if not is_escape_call(iff.orelse[0].value):
         raise T.TranslateError("_format_string: unquoted branch is not _escape_value(value)")
-    return starts, ends, contains, qo, qc
+    return strip_changes, starts, ends, contains, qo, qc
 
 
 def _forbidden_in(fn: ast.FunctionDef, var: str) -> list:
@@ -215,7 +222,7 @@ def translate(repo: Path) -> dict:
         raise T.TranslateError(f"_ESCAPE_TABLE is not a byte->byte dict: {esc_table!r}")
     comment = list(_module_const(tree, "_COMMENT_CHARS"))
     white = list(_module_const(tree, "_WHITESPACE_CHARS"))
-    starts, ends, contains, qo, qc = _format_string_rule(T.find_def(tree, "_format_string"))
+    strip_changes, starts, ends, contains, qo, qc = _format_string_rule(T.find_def(tree, "_format_string"))
     esc_writes = _replace_chain(T.find_def(tree, "_escape_value"), "value")
     sub_fn = T.find_def(tree, "_escape_subsection")
     sub_writes = _replace_chain(sub_fn, "name")
@@ -239,9 +246,10 @@ def translate(repo: Path) -> dict:
     var_extra = [_one_byte(e["a"], "_check_variable_name")]
     e = _shape(T.find_def(tree, "_check_section_name"), "_check_section_name", [1, H("a"), H("b")])
     sec_extra = [_one_byte(e["a"], "_check_section_name"), _one_byte(e["b"], "_check_section_name")]
-    e = _shape(T.find_def(tree, "_strip_comments"), "_strip_comments", [H("c1"), H("c2"), H("q")])
+    e = _shape(T.find_def(tree, "_strip_comments"), "_strip_comments", [H("c1"), H("c2"), H("q"), H("bs")])
     sc_chars = [_one_byte(e["c1"], "_strip_comments"), _one_byte(e["c2"], "_strip_comments")]
     sc_quote = _one_byte(e["q"], "_strip_comments")
+    sc_escape = _one_byte(e["bs"], "_strip_comments")
     e = _shape(T.find_def(tree, "_is_line_continuation"), "_is_line_continuation",
                [H("lf"), H("crlf"), H("crlf"), 2, 1, H("bs"), 0, 1, 1, 1, 1, H("bs"), 1, 2, 1])
     cont_lf, cont_crlf, cont_bs = e["lf"], e["crlf"], _one_byte(e["bs"], "_is_line_continuation")
@@ -294,6 +302,8 @@ def whitespaceChars : List UInt8 := {lb(white)}
 def parseEscapeChar : UInt8 := {p_esc}
 /-- `_parse_string`: `c == ord(b'"')` -/
 def parseQuoteChar : UInt8 := {p_quote}
+/-- `_format_string`: `value != value.strip()` is one of the quoting triggers -/
+def quoteIfStripChanges : Bool := {"true" if strip_changes else "false"}
 /-- `_format_string`: `value.startswith((...))` -/
 def quoteIfStartsWith : List UInt8 := {lb(starts)}
 /-- `_format_string`: `value.endswith((...))` -/
@@ -316,6 +326,7 @@ def sectionNameExtra : List UInt8 := {lb(sec_extra)}
 /-- `_strip_comments` -/
 def stripCommentChars : List UInt8 := {lb(sc_chars)}
 def stripCommentQuote : UInt8 := {sc_quote}
+def stripCommentEscape : UInt8 := {sc_escape}
 /-- `_is_line_continuation` / `from_file` continuation handling -/
 def contSuffixLF : List UInt8 := {lb(cont_lf)}
 def contSuffixCRLF : List UInt8 := {lb(cont_crlf)}
@@ -426,12 +437,13 @@ def real_read(data: bytes):
 # failing-input classes (plain predicates on the *input*, independent of the model)
 
 def value_class(v: bytes):
+    """label of the formerly failing value classes (repaired by 6d569a0).  Used as histogram tag and as the class of an
+    oracle failure; no *known* finding matches these any more, so a failure of such a value is a violation."""
     if b"\r" in v:
         return "value:cr"
-    quoted = v[:1] in (b" ", b"\t") or v[-1:] in (b" ", b"\t") or b"#" in v
-    if not quoted and b";" in v:
+    if b";" in v and b"#" not in v and v == v.strip(b" \t"):
         return "value:semicolon-unquoted"
-    if not quoted and (v[:1] in (b"\x0b", b"\x0c") or v[-1:] in (b"\x0b", b"\x0c")):
+    if v[:1] in (b"\x0b", b"\x0c") or v[-1:] in (b"\x0b", b"\x0c"):
         return "value:edge-vt-ff"
     return None
 
@@ -602,7 +614,7 @@ def exhaustive(alpha, maxlen):
             yield bytes(tup)
 
 
-def gen_value(rng, wf_bias=0.0) -> bytes:
+def gen_value(rng) -> bytes:
     """random longer value over the full byte alphabet minus NUL, dense in special characters"""
     n = rng.choice([5, 6, 7, 8, 10, 12, 16, 24, 40, 80])
     kind = rng.random()
@@ -615,19 +627,14 @@ def gen_value(rng, wf_bias=0.0) -> bytes:
             out.append(rng.choice(b"abcxyzABC019 =[]-./:@"))
         else:
             out.append(rng.randrange(1, 256))
-    v = bytes(out)
-    if rng.random() < wf_bias:
-        v = v.replace(b"\r", b"r")
-        if value_class(v):
-            v = v.replace(b";", b",").strip(b"\x0b\x0c")
-    return v
+    return bytes(out)
 
 
 SEC_NAMES = [b"core", b"Core", b"CORE", b"remote", b"Remote", b"branch", b"a-b", b"x1", b"user", b"s"]
 KEY_NAMES = [b"k", b"K", b"url", b"URL", b"Url", b"fetch", b"a-b", b"x1", b"name", b"Name", b"pushurl"]
 
 
-def gen_sub(rng, hazard=0.05):
+def gen_sub(rng):
     r = rng.random()
     if r < 0.25:
         return None
@@ -635,8 +642,6 @@ def gen_sub(rng, hazard=0.05):
         return rng.choice([b"origin", b"Origin", b"main", b"a.b", b"a b", b"", b"x/y", b"UP"])
     n = rng.randint(1, 8)
     s = bytes(rng.choice(SUB_ALPHA + [ord("x"), ord("Z"), TAB, 0x80, 0xFF, ord("=")]) for _ in range(n))
-    if sub_class(s) and rng.random() > hazard:
-        s = s.replace(b"#", b"h").replace(b";", b",")
     return s
 
 
@@ -648,7 +653,7 @@ def gen_name(rng, allow_empty=False) -> bytes:
     return bytes(rng.choice(NAME_CHARS) for _ in range(n))
 
 
-def gen_struct(rng, bad_values=0.08, odd_names=0.15):
+def gen_struct(rng, odd_names=0.15):
     """a configuration as ConfigDict.add/set would build it: sections distinct under lower_key.
     odd_names: share of names outside git's grammar but inside dulwich's (leading digit/hyphen, empty key or
     section name, '.' in a section that has a subsection) -- exercised against the model only, git skips them."""
@@ -667,14 +672,13 @@ def gen_struct(rng, bad_values=0.08, odd_names=0.15):
             k = rng.choice(KEY_NAMES) if rng.random() > odd_names else gen_name(rng, allow_empty=True)
             r = rng.random()
             if r < 0.3:
-                v = bytes(rng.choice(ALPHA11) for _ in range(rng.randint(0, 4)))
-                if value_class(v) and rng.random() > bad_values:
-                    v = v.replace(b"\r", b"r").replace(b";", b"#")
+                v = bytes(rng.choice(ALPHA15) for _ in range(rng.randint(0, 4)))
             elif r < 0.6:
                 v = rng.choice([b"true", b"", b"https://example.com/x.git", b"+refs/heads/*:refs/remotes/origin/*",
-                                b" lead", b"trail ", b"\ttab", b"a\\b", b'say "hi"', b"x # y", b"multi\nline", b"0"])
+                                b" lead", b"trail ", b"\ttab", b"a\\b", b'say "hi"', b"x # y", b"multi\nline", b"0",
+                                b"a;b", b"cr\rlf\n", b"\x0bvt", b"ff\x0c", b"\r", b";"])
             else:
-                v = gen_value(rng, wf_bias=1.0 - bad_values)
+                v = gen_value(rng)
             ents.append((k, v))
         struct.append(((name, sub), ents))
     return struct
@@ -695,24 +699,22 @@ def _real_fmt_parse(v: bytes):
         return fmt, exc_str(e)
 
 
-def _stream_values(ctx, stream, values, check_exact=True):
-    """model vs real: formatted bytes, parse of the formatted bytes; oracle: real write->read of the value;
-    exactness of the model's well-formedness predicate (wfValue v <=> the real round trip holds)."""
+def _stream_values(ctx, stream, values):
+    """model vs real: formatted bytes, parse of the formatted bytes; oracle: real write->read of the value.
+    (The model side is a theorem: parseString (formatString v) = v for every v; the driver output is still compared
+    so that a model that no longer describes the code is seen.)"""
     values = list(values)
     outs = ctx.driver.batch([f"c20.rt {hx(v)}" for v in values])
     for v, o in zip(values, outs):
-        wf, mfmt, mparse = o.split(" ", 2)
+        mfmt, mparse = o.split(" ", 1)
         fmt, rparse = _real_fmt_parse(v)
         quoted = fmt is not None and fmt[:1] == b'"'
-        ctx.count(stream, v, True, ("quoted" if quoted else "plain") + (":wf" if wf == "1" else ":" + str(value_class(v))))
+        ctx.count(stream, v, True, ("quoted" if quoted else "plain") + ":" + str(value_class(v) or "other"))
         if fmt is None or hx(fmt) != mfmt:
             ctx.disagree(stream + ".format", {"kind": "value", "value": hx(v)}, mfmt, rparse if fmt is None else hx(fmt))
         elif rparse != mparse:
             ctx.disagree(stream + ".parse", {"kind": "value", "value": hx(v), "formatted": hx(fmt)}, mparse, rparse)
-        ok = oracle_value(ctx, stream, v)
-        if check_exact and ok != (wf == "1"):
-            ctx.disagree(stream + ".wf-exact", {"kind": "value", "value": hx(v)},
-                         f"wfValue={wf}", f"real round trip {'holds' if ok else 'fails'}")
+        oracle_value(ctx, stream, v)
     if values:
         v = values[len(values) // 2]
         ctx.sample({"stream": stream, "value": hx(v), "model": outs[len(values) // 2]})
@@ -756,7 +758,7 @@ def _stream_subsections(ctx, stream, subs):
             ctx.count(stream, s, True, "refused")
             continue
         ok = oracle_subsection(ctx, stream, b"Sec", s)
-        ctx.count(stream, s, True, "wf" if mwf == "1" else str(sub_class(s)))
+        ctx.count(stream, s, True, "accepted:" + str(sub_class(s) or "other"))
         if ok != (mwf == "1"):
             ctx.disagree(stream + ".wf-exact", {"kind": "subsection", "sub": hx(s)}, f"wfSubsection={mwf}",
                          f"real round trip {'holds' if ok else 'fails'}")
@@ -947,8 +949,8 @@ def gen_ops(rng):
 
 
 def gen_small_value(rng):
-    v = bytes(rng.choice(ALPHA11 + [ord("a"), ord("z")]) for _ in range(rng.randint(0, 4)))
-    return v.replace(b"\r", b"R").replace(b";", b":") if rng.random() < 0.9 else v
+    v = bytes(rng.choice(ALPHA15 + [ord("z")]) for _ in range(rng.randint(0, 4)))
+    return v
 
 
 def ops_tokens(ops) -> str:
@@ -1060,12 +1062,9 @@ def _git_reads_dulwich_values(ctx, git, values):
     def check_one(v, got, err=None):
         case = {"kind": "git-reads", "value": hx(v)}
         if err is not None:
-            ctx.oracle_fail("git.reads-dulwich", case, f"git cannot read the file dulwich wrote for value {v!r}: {err}",
-                            "value:cr" if value_class(v) == "value:cr" else None)
+            ctx.oracle_fail("git.reads-dulwich", case, f"git cannot read the file dulwich wrote for value {v!r}: {err}", value_class(v))
         elif got != v:
-            c = value_class(v)
-            ctx.oracle_fail("git.reads-dulwich", case, f"git reads {got!r} where dulwich wrote {v!r}",
-                            c if c in ("value:semicolon-unquoted", "value:cr") else None)
+            ctx.oracle_fail("git.reads-dulwich", case, f"git reads {got!r} where dulwich wrote {v!r}", value_class(v))
 
     CH = 40
     for s in range(0, len(values), CH):
@@ -1128,17 +1127,14 @@ def _git_reads_dulwich_files(ctx, git, structs, n):
         case = {"kind": "git-reads-cfg", "cfg": cfg_tokens(s), "file": hx(data)}
         ctx.count("git.reads-dulwich.files", data, True, "err" if isinstance(got, tuple) else "ok")
         if isinstance(got, tuple):
-            cls = "value:cr" if any(b"\r" in v for _, v in want) else None
-            ctx.oracle_fail("git.reads-dulwich.files", case, f"git cannot read the file dulwich wrote: {got[1]}", cls)
+            ctx.oracle_fail("git.reads-dulwich.files", case, f"git cannot read the file dulwich wrote: {got[1]}", None)
         elif got != want:
             if len(got) == len(want) and all(g[0] == w[0] for g, w in zip(got, want)):
                 # one report per differing entry, classified by its own value
                 for g, w in zip(got, want):
                     if g != w:
-                        c = value_class(w[1])
                         ctx.oracle_fail("git.reads-dulwich.files", dict(case, value=hx(w[1])),
-                                        f"git reads {g[1]!r} for {w[0]!r} where dulwich wrote {w[1]!r}",
-                                        c if c in ("value:semicolon-unquoted", "value:cr") else None)
+                                        f"git reads {g[1]!r} for {w[0]!r} where dulwich wrote {w[1]!r}", value_class(w[1]))
             else:
                 ctx.oracle_fail("git.reads-dulwich.files", case, f"git lists {got!r}, dulwich wrote {want!r}"[:600], None)
 
@@ -1181,17 +1177,17 @@ def _dulwich_reads_git(ctx, git, items):
                 for g, w in zip(got, gl):
                     if g != w:
                         wv = w[1] or b""
-                        edge = wv[:1] in (b"\x0b", b"\x0c") or wv[-1:] in (b"\x0b", b"\x0c")
                         ctx.oracle_fail("dulwich.reads-git", dict(case, value=hx(wv)),
                                         f"dulwich reads {g[1]!r} for {g[0]!r} where git reads {w[1]!r} from the file git wrote",
-                                        "value:edge-vt-ff" if edge else None)
+                                        git_written_class(wv, g[1]))
             else:
                 ctx.oracle_fail("dulwich.reads-git", case, f"dulwich reads {got!r}, git reads {gl!r}"[:600], None)
     _compare_read(ctx, "file.read.git-written", datas)
 
 
 WF_VALUES = [b"v1", b"v2", b" lead", b"trail ", b"a#b", b'q"q', b"back\\slash", b"tab\there", b"multi\nline", b"",
-             b"x y", b"\\", b"#", b" ; ", b"a;b#", b"\\n", b"caf\xc3\xa9", b"\x08", b"a\x0bb"]
+             b"x y", b"\\", b"#", b" ; ", b"a;b#", b"\\n", b"caf\xc3\xa9", b"\x08", b"a\x0bb",
+             b"a;b", b";", b"a\rb", b"\rlead", b"trail\r", b"\r", b"x;y\rz"]
 
 
 def gen_interleaved(rng):
@@ -1288,16 +1284,26 @@ def run_interleaved(ctx, git, steps, stream="interleaved") -> bool:
 
 
 def _stream_interleaved(ctx, git, n):
-    """set / add / unset / rewrite sequences shared between C git and dulwich.  Only values outside the known
-    failing classes are used, so any failure here is unclassified."""
-    assert all(value_class(v) is None for v in WF_VALUES)
+    """set / add / unset / rewrite sequences shared between C git and dulwich (no value with a VT/FF edge: a git-written
+    one is the known reader-side finding, exercised in dulwich.reads-git); any failure here is unclassified."""
     for _ in range(n):
         run_interleaved(ctx, git, gen_interleaved(ctx.rng))
 
 
+def git_written_class(git_value: bytes, dulwich_value: bytes):
+    """the remaining reader-side defect: git writes a value whose first/last byte is VT or FF *unquoted* (git's
+    isspace() does not include them) and preserves it; dulwich's bytes.strip() removes that edge run.  Narrow: the value
+    must have such an edge and dulwich's reading must be exactly the value minus its edge runs of VT/FF/space bytes (git
+    writes TAB as the escape \\t, LF as \\n and quotes values with CR, so only these three can be lost)."""
+    edge = git_value[:1] in (b"\x0b", b"\x0c") or git_value[-1:] in (b"\x0b", b"\x0c")
+    if edge and dulwich_value == git_value.strip(b"\x0b\x0c ") and dulwich_value != git_value:
+        return "git-written:edge-vt-ff"
+    return None
+
+
 def gen_git_item(rng, values):
     name = rng.choice([b"core", b"Remote", b"x-1"])
-    sub = gen_sub(rng, hazard=0.03)
+    sub = gen_sub(rng)
     if sub is not None and (b"\n" in sub or b"\0" in sub):
         sub = b"o"
     k = rng.choice(GIT_KEYS)
@@ -1308,18 +1314,25 @@ def gen_git_item(rng, values):
 # ------------------------------------------------------------------------------------------------
 # corpus
 
-def _run_corpus(ctx):
+def _run_corpus(ctx, git):
+    """past witnesses: the repaired ones must now hold (regression), the remaining known one is re-run"""
     d = core.VERIF / "corpus" / PROP
     if not d.exists():
         return
     for f in sorted(d.glob("*.json")):
         c = json.loads(f.read_text())
         ctx.count("corpus", f.stem, True, c.get("kind"))
-        _oracle_case(ctx, "corpus", c)
+        _oracle_case(ctx, "corpus", c, git)
 
 
-def _oracle_case(ctx, stream, c) -> None:
+def _oracle_case(ctx, stream, c, git=None) -> None:
     kind = c.get("kind")
+    if kind == "dulwich-reads" and git is not None:
+        items = [(unhx(a), None if b == "~" else unhx(b), unhx(cc), unhx(d)) for a, b, cc, d in c["items"]]
+        _dulwich_reads_git(ctx, git, items)
+        return
+    if kind == "value" and git is not None:
+        _git_reads_dulwich_values(ctx, git, [unhx(c["value"])])
     if kind in ("value", "git-reads", "parse") and "value" in c:
         oracle_value(ctx, stream, unhx(c["value"]))
     elif kind == "subsection":
@@ -1343,17 +1356,17 @@ def parse_cfg_tokens(s: str):
 
 # ------------------------------------------------------------------------------------------------
 
-#: AST fingerprints of the modelled functions at the pinned commit.  A change never decides anything by itself,
+#: AST fingerprints of the modelled functions at the commit the model was last brought up to date with (f1ebc7b).  A change never decides anything by itself,
 #: it only multiplies the case budget (DESIGN 2.3 "adaptive depth").
 BASELINE_FP = {
-    "_format_string": "7e724d0e966874ec",
-    "_escape_value": "65383919914241ba",
+    "_format_string": "8fb19f6479ee70a3",
+    "_escape_value": "3533afdf15740afa",
     "_parse_string": "1e4fbf2a65be146a",
     "_escape_subsection": "b27e05583af733e1",
     "_unescape_subsection": "591dc33c8e10c194",
     "_check_variable_name": "58458acd9181d2c3",
     "_check_section_name": "127f55976df1fe75",
-    "_strip_comments": "a424e6e104a46189",
+    "_strip_comments": "9bbb6bfda521fa56",
     "_is_line_continuation": "124d30a05cfe7273",
     "_parse_section_header_line": "fc125d1ba8204a61",
     "ConfigFile.from_file": "4003ccc89c4dad15",
@@ -1390,7 +1403,8 @@ def run(ctx: core.Ctx):
     if changed:
         ctx.notes.append(f"modelled functions changed since the model was written: {changed}; budgets x{boost}")
 
-    _run_corpus(ctx)
+    git = Git(ctx)
+    _run_corpus(ctx, git)
 
     # 1. values: exhaustive over the property's alphabet, then the extended alphabet, then random longer ones
     L11 = 5 if (ctx.thorough or boost > 1) else 4
@@ -1420,7 +1434,6 @@ def run(ctx: core.Ctx):
     _stream_ops(ctx, ctx.budget(2000, mult=5) * boost)
 
     # 5. C git, both directions (sampled in quick)
-    git = Git(ctx)
     if ctx.thorough:
         gvals = [v for v in exhaustive(ALPHA11, 4) if b"\0" not in v]
     else:
